@@ -36,6 +36,12 @@ type c17Op struct {
 	Flag    bool   `json:"flag,omitempty"` // value of the computed append flag (appendVar)
 	Spell   string `json:"spell,omitempty"` // "" | dot (./p) | updown (sub/../p): another spelling of the same file
 	ReadFrom string `json:"read_from,omitempty"` // c_origin "readof": the content is the inline expression read(<this file>), possibly the written file itself
+	// Comp: read/exists whose result is consumed inside a larger expression, next to another operand
+	// that reads or modifies a file: cat2 (read(a) + read(b)), eq2 (read(a) == read(b)), args2
+	// (f(read(a), read(b))), thenmod (read(p) + g(p) resp. f(exists(p), g(p)) where g writes p:
+	// operands are evaluated from left to right, so the builtin sees the state before g ran)
+	Comp  string `json:"comp,omitempty"`
+	Path2 string `json:"path2,omitempty"`
 }
 
 // spelled returns the path as the program spells it; the model always uses Path.
@@ -224,7 +230,7 @@ func c17Gen(rng *gen.Rng, population string) *c17Hist {
 			paths = append(paths, sib)
 		}
 	}
-	largeUsed := false
+	largeUsed := !rng.Chance(5) // one history in twenty may contain one large value (each costs seconds)
 	content := func() string {
 		if extC && rng.Chance(45) {
 			c := rng.Pick(c17ExtContents)
@@ -239,11 +245,11 @@ func c17Gen(rng *gen.Rng, population string) *c17Hist {
 			c = strings.Repeat("The quick brown fox jumps over the lazy dog 0123456789 ", rng.Range(40, 110))
 			c = strings.TrimSpace(c)
 		}
-		if !largeUsed && rng.Chance(2) {
+		if !largeUsed && rng.Chance(15) {
 			// a large value (at most one per history): beyond 64 KiB, beyond the 128 KiB the kernel
-			// allows for ONE argument or environment string, beyond 256 KiB
+			// allows for ONE argument or environment string (the lexer needs about 2 s for such a literal)
 			largeUsed = true
-			n := rng.Pick2([]int{70_000, 140_000, 300_000})
+			n := rng.Pick2([]int{66_000, 132_000, 132_000})
 			c = strings.TrimSpace(strings.Repeat("The quick brown fox jumps over the lazy dog 0123456789 ", n/55+1)[:n])
 		}
 		if rng.Chance(30) {
@@ -329,7 +335,23 @@ func c17Gen(rng *gen.Rng, population string) *c17Hist {
 				h.Ops = append(h.Ops, c17Op{Kind: "write", Path: p, Content: content(), Render: "top", POrigin: "literal", COrigin: "literal"})
 				files[p] = true
 			}
-			h.Ops = append(h.Ops, c17Op{Kind: "read", Spell: spell, Path: p, Render: render, POrigin: origin(p)})
+			rop := c17Op{Kind: "read", Spell: spell, Path: p, Render: render, POrigin: origin(p)}
+			if rng.Chance(22) {
+				// the result is consumed inside a larger expression
+				rop.Comp = rng.Pick([]string{"cat2", "eq2", "args2", "thenmod"})
+				if rop.Comp == "thenmod" {
+					rop.Content, rop.COrigin = content(), rng.Pick([]string{"literal", "literal", "var", "runtime"})
+				} else {
+					others := []string{}
+					for _, q := range paths {
+						if files[q] {
+							others = append(others, q)
+						}
+					}
+					rop.Path2 = rng.Pick(others) // (p itself is among them)
+				}
+			}
+			h.Ops = append(h.Ops, rop)
 		case k < 90:
 			q := p
 			if rng.Chance(25) {
@@ -342,7 +364,12 @@ func c17Gen(rng *gen.Rng, population string) *c17Hist {
 			if q == p && rng.Chance(12) {
 				sp = rng.Pick([]string{"slash", "slashdot", "ghost"})
 			}
-			h.Ops = append(h.Ops, c17Op{Kind: "exists", Spell: sp, Path: q, Render: render, POrigin: origin(q)})
+			eop := c17Op{Kind: "exists", Spell: sp, Path: q, Render: render, POrigin: origin(q)}
+			if q == p && (sp == "" || sp == "dot" || sp == "updown") && rng.Chance(18) {
+				eop.Comp, eop.Content, eop.COrigin = "thenmod", content(), rng.Pick([]string{"literal", "literal", "var", "runtime"})
+				files[p] = true
+			}
+			h.Ops = append(h.Ops, eop)
 		case k < 94:
 			if cuts > 0 {
 				cuts--
@@ -442,6 +469,23 @@ func (h *c17Hist) valid() bool {
 		case "read":
 			if !files[op.Path] {
 				return false
+			}
+			switch op.Comp {
+			case "cat2", "eq2", "args2":
+				if !files[op.Path2] {
+					return false
+				}
+			case "thenmod":
+				if !parentOK || dirs[op.Path] {
+					return false
+				}
+			}
+		case "exists":
+			if op.Comp == "thenmod" {
+				if !parentOK || dirs[op.Path] || op.Spell == "slash" || op.Spell == "slashdot" || op.Spell == "ghost" {
+					return false
+				}
+				files[op.Path] = true
 			}
 		}
 	}
@@ -732,6 +776,54 @@ func (h *c17Hist) render(seed uint64) []*c17Segment {
 			pe := operand(id, "p", op.POrigin, op.spelled(), &pre)
 			pn := fmt.Sprintf("rp%d", id)
 			sb.WriteString(pre.String())
+			if op.Comp != "" {
+				unspecified := func(f string) bool { return strings.HasSuffix(f, "\n\n") || f == "\n" }
+				a := strings.TrimSuffix(m.Files[op.Path], "\n")
+				unspec := unspecified(m.Files[op.Path])
+				var pre2 strings.Builder
+				expr, want, kind, typ := "", "", "read", "string"
+				switch op.Comp {
+				case "cat2", "eq2", "args2":
+					o2 := "literal"
+					if strings.ContainsAny(op.Path2, "\"$`\\") {
+						o2 = "runtime" // (a literal would only re-find the listed literal-quoting finding)
+					}
+					pe2 := operand(id, "q", o2, op.Path2, &pre2)
+					b := strings.TrimSuffix(m.Files[op.Path2], "\n")
+					unspec = unspec || unspecified(m.Files[op.Path2])
+					switch op.Comp {
+					case "cat2":
+						expr, want = fmt.Sprintf("read(%s) + read(%s)", pe, pe2), a+b
+					case "eq2":
+						expr, kind, typ = fmt.Sprintf("read(%s) == read(%s)", pe, pe2), "exists", "bool"
+						want = map[bool]string{true: "1", false: "0"}[a == b]
+					default:
+						fmt.Fprintf(&pre2, "func gj%d(ga%d string, gb%d string) string {\nreturn ga%d + \"/\" + gb%d\n}\n", id, id, id, id, id)
+						expr, want = fmt.Sprintf("gj%d(read(%s), read(%s))", id, pe, pe2), a+"/"+b
+					}
+				default: // thenmod
+					ce := operand(id, "c", op.COrigin, op.Content, &pre2)
+					fmt.Fprintf(&pre2, "func gm%d(gp%d string) string {\nwrite(gp%d, %s, true)\nreturn \"+\"\n}\n", id, id, id, ce)
+					expr, want = fmt.Sprintf("read(%s) + gm%d(%s)", pe, id, pe), a+"+"
+					m.Files[op.Path] = m.Files[op.Path] + op.Content + "\n"
+				}
+				sb.WriteString(pre2.String())
+				if strings.HasPrefix(op.Render, "func") || op.Render == "nested" {
+					fmt.Fprintf(&sb, "func gw%d() %s {\nreturn %s\n}\n", id, typ, expr)
+					expr = fmt.Sprintf("gw%d()", id)
+				}
+				if typ == "bool" {
+					fmt.Fprintf(&sb, "ee%d := %s\nprint(\"<<X%d>>\", ee%d, \"<<E%d>>\")\n", id, expr, id, id, id)
+				} else {
+					fmt.Fprintf(&sb, "rr%d := %s\nprint(\"<<R%d>>\" + rr%d + \"<<E%d>>\")\n", id, expr, id, id, id)
+				}
+				if unspec {
+					kind = "read-unspecified"
+				}
+				cur.Expect = append(cur.Expect, c17Expect{ID: id, Kind: kind, Want: want, Op: op})
+				cur.OpIdx = append(cur.OpIdx, i)
+				continue
+			}
 			switch op.Render {
 			case "direct":
 				fmt.Fprintf(&sb, "rr%d := read(%s)\n", id, pe)
@@ -771,6 +863,23 @@ func (h *c17Hist) render(seed uint64) []*c17Segment {
 			pe := operand(id, "p", op.POrigin, op.spelled(), &pre)
 			pn := fmt.Sprintf("ep%d", id)
 			sb.WriteString(pre.String())
+			if op.Comp == "thenmod" {
+				var pre2 strings.Builder
+				ce := operand(id, "c", op.COrigin, op.Content, &pre2)
+				sb.WriteString(pre2.String())
+				fmt.Fprintf(&sb, "func gm%d(gp%d string) bool {\nwrite(gp%d, %s)\nreturn true\n}\nfunc gf%d(ga%d bool, gb%d bool) bool {\nreturn ga%d\n}\n", id, id, id, ce, id, id, id, id)
+				expr := fmt.Sprintf("gf%d(exists(%s), gm%d(%s))", id, pe, id, pe)
+				if strings.HasPrefix(op.Render, "func") || op.Render == "nested" {
+					fmt.Fprintf(&sb, "func gw%d() bool {\nreturn %s\n}\n", id, expr)
+					expr = fmt.Sprintf("gw%d()", id)
+				}
+				fmt.Fprintf(&sb, "ee%d := %s\nprint(\"<<X%d>>\", ee%d, \"<<E%d>>\")\n", id, expr, id, id, id)
+				_, isF := m.Files[op.Path]
+				cur.Expect = append(cur.Expect, c17Expect{ID: id, Kind: "exists", Want: map[bool]string{true: "1", false: "0"}[isF], Op: op})
+				m.Files[op.Path] = op.Content + "\n"
+				cur.OpIdx = append(cur.OpIdx, i)
+				continue
+			}
 			switch op.Render {
 			case "direct", "fordirect":
 				fmt.Fprintf(&sb, "ee%d := exists(%s)\n", id, pe)
@@ -1256,6 +1365,11 @@ func c17Report(r *Run, h *c17Hist, seed uint64, kind, detail string, cfPass bool
 	for i := range cur.Ops {
 		for _, simp := range []func(*c17Op){
 			func(o *c17Op) { o.Render = "direct" },
+			func(o *c17Op) {
+				if o.Kind == "read" && o.Comp != "thenmod" {
+					o.Comp, o.Path2 = "", ""
+				}
+			},
 			func(o *c17Op) {
 				if o.POrigin != "" && o.POrigin != "runtime" {
 					o.POrigin = "literal"
